@@ -5,3 +5,24 @@ pub open spec fn is_data_url(u: Seq<char>) -> bool { u.len() >= 5 && u.subrange(
 pub open spec fn has_map_keys(m: MinimalRawSourceMap) -> bool {
     (m.version is Some && m.sources is Some && m.mappings is Some) || m.sections is Some
 }
+// the reference comment: first line that begins with one of the two 21-character prefixes
+pub open spec fn ref_line(cs: Seq<char>) -> bool { seq_starts_with(cs, "//# sourceMappingURL="@) || seq_starts_with(cs, "//@ sourceMappingURL="@) }
+/// lines[k] is the first line that is an error or begins with a reference comment (k == lines.len(): there is none)
+pub open spec fn first_ref_or_err(lines: Seq<std::io::Result<String>>, k: int) -> bool {
+    0 <= k <= lines.len() && (forall|j: int| 0 <= j < k ==> (#[trigger] lines[j] matches Ok(l) && !ref_line(l@)))
+        && (k < lines.len() ==> (lines[k] is Err || (lines[k] matches Ok(l) && ref_line(l@))))
+}
+pub open spec fn locate_post(lines: Seq<std::io::Result<String>>, res: Result<Option<SourceMapRef>>) -> bool {
+    exists|k: int| #[trigger] first_ref_or_err(lines, k) && (
+        (k == lines.len() && res matches Ok(None))
+        || (k < lines.len() && lines[k] is Err && res is Err)
+        || (k < lines.len() && (lines[k] matches Ok(l) && (res matches Ok(Some(r)) && trimmed_is(l@.subrange(21, l@.len() as int), ref_url(r)) && (r is LegacyRef <==> l@[2] == '@')))))
+}
+pub proof fn lemma_ascii_prefix_len(cs: Seq<char>, k: int)
+    requires 0 <= k <= cs.len(), forall|j: int| 0 <= j < k ==> (#[trigger] cs[j] as u32) < 128
+    ensures utf8_len(cs.subrange(0, k)) == k
+    decreases k
+{
+    if k == 0 { assert(cs.subrange(0, 0) == Seq::<char>::empty()); }
+    else { lemma_ascii_prefix_len(cs, k - 1); lemma_prefix_step(cs, k - 1); }
+}
